@@ -14,7 +14,7 @@ EXPLANATION = (
     "counter is incremented before the executed/unexecuted test under the BASE/WITNESS_V0 test, the multisig key "
     "count is added before its comparison, tapscript is exempt from the op-count and script-size limits, and every "
     "numeric operand of a consensus opcode is decoded with the 4-byte default except the two lock-time opcodes (5). "
-    "That a script AT a limit succeeds is not decided (it needs the rest of the interpreter).")
+    "That a script AT a limit succeeds is not decided (it needs the rest of the interpreter). R10.9: from every statement of the operation step that grows the stack or the alt stack, every path to the exit passes the MAX_STACK_SIZE comparison (or a helper call making it) or a failing return; R10.7 judges a helper that receives the quantity as a parameter per call site inside the operation step.")
 TRUSTED = ["clang 14 parser/Sema/constant evaluator/CFG", "/verif extractor and engines", "spec/limits.json transcription of the consensus values"]
 ASSUMPTIONS = ["Makefile.am source lists are what is shipped", "limit constants are only used through their names (a raw literal 520 would not be seen)"]
 DECLINED = ["that a script exactly at a limit succeeds", "that the counted quantities (sizes, counts) are the right ones beyond their names/fields"]
